@@ -33,6 +33,9 @@ func amountVariants() []gen.Amount {
 			out = append(out, gen.Amount{Kind: "skiptake", Skip: s, Take: t})
 		}
 	}
+	// what separates the two halves of `skip s take t` is layout: comments and line breaks included
+	out = append(out, gen.Amount{Kind: "skiptake", Skip: 1, Take: 2, Sep: " --(c)-- "}, gen.Amount{Kind: "skiptake", Skip: 2, Take: 1, Sep: " -- drop the first two\n"},
+		gen.Amount{Kind: "skiptake", Skip: 1, Take: 1, Sep: "\n\t"}, gen.Amount{Kind: "skiptake", Skip: 0, Take: 3, Sep: "--(a)----(b)--"})
 	// numbers spelled with leading zeros are decimal all the same
 	out = append(out, gen.Amount{Kind: "top", Take: 2, Zeros: 1}, gen.Amount{Kind: "take", Take: 1, Zeros: 2}, gen.Amount{Kind: "skip", Skip: 1, Zeros: 1},
 		gen.Amount{Kind: "last", Last: 2, Zeros: 1}, gen.Amount{Kind: "skiptake", Skip: 1, Take: 2, Zeros: 1})
@@ -176,8 +179,13 @@ func C04(r *drv.Run) {
 				return
 			}
 			for k := range res.Compiles {
-				if !res.Compiles[k].OK && k > 0 && res.Compiles[0].OK && variants[k-1].Zeros > 0 && res.Compiles[k].Panic == nil {
-					r.Violate(&drv.Violation{Sig: "leading-zero-amount-rejected", Src: string(srcs[k]), Err: res.Compiles[k].Err, Case: &c,
+				if !res.Compiles[k].OK && k > 0 && res.Compiles[0].OK && res.Compiles[k].Panic == nil {
+					// the same body under `all` compiled: only the amount clause differs
+					sig := "amount-clause-rejected:" + variants[k-1].Kind
+					if variants[k-1].Zeros > 0 {
+						sig = "leading-zero-amount-rejected"
+					}
+					r.Violate(&drv.Violation{Sig: sig, Src: string(srcs[k]), Err: res.Compiles[k].Err, Case: &c,
 						Detail: map[string]any{"all": baseSrc, "error": oneLineN(res.Compiles[k].Err, 160)}})
 					return
 				}
